@@ -33,7 +33,13 @@ import (
 	"time"
 )
 
-const verifRoot = "/verif"
+// verifRoot is /verif unless run.sh was started from a snapshot (vp run), which sets VERIF_ROOT.
+var verifRoot = func() string {
+	if r := os.Getenv("VERIF_ROOT"); r != "" {
+		return r
+	}
+	return "/verif"
+}()
 
 // ---------------------------------------------------------------- check registry
 
